@@ -107,6 +107,46 @@ static void transition_case(int nl, int nn, int wsall, int selfloop)
    longer concrete */
 #define TCASE(NL, NN, WS, SL) void h_c04_reader_transition_##NL##NN##WS##SL(void) { transition_case(NL, NN, WS, SL); REACH; }
 TCASE(0, 0, 0, 0) TCASE(0, 0, 1, 1) TCASE(0, 1, 1, 0) TCASE(1, 0, 0, 1) TCASE(1, 0, 1, 0) TCASE(1, 1, 0, 0) TCASE(2, 0, 0, 0) TCASE(2, 0, 1, 1) TCASE(2, 1, 1, 0)
+/* templ(): name, parameters, proc_begin, declarations, every location, every branchpoint, init, every transition, proc_end - each
+   element handed to its reader exactly once, in document order (the element readers are used through their contracts) */
+void wx_start_template(int n);
+static void templ_case(int hn, int hp, int hd, int nl, int nb, int nt, int wsall)
+{
+    int nm, pt, dt;
+    int lstart[2], bstart[2], tstart[2], istart;
+    __CPROVER_assume(nm >= 45 && nm <= 49 && pt >= 50 && pt <= 54 && dt >= 55 && dt <= 59);
+    n_ = 0;
+    el(TAG_TEMPLATE, 0, 0, 0, 0, 0, 0);
+    if (hn) { ws(wsall); el(TAG_NAME, 0, 0, 0, 0, 0, 0); text(nm); endel(TAG_NAME); }
+    if (hp) { ws(wsall); el(TAG_PARAMETER, 0, 0, 0, 0, 0, 0); text(pt); endel(TAG_PARAMETER); }
+    if (hd) { ws(wsall); el(TAG_DECLARATION, 0, 0, 0, 0, 0, 0); text(dt); endel(TAG_DECLARATION); }
+    for (int i = 0; i < 2; i++) if (i < nl) { ws(wsall); lstart[i] = n_; el(TAG_LOCATION, 0, 0, 41 + i, 0, 0, 0); el(TAG_NAME, 0, 0, 0, 0, 0, 0); text(46 + i); endel(TAG_NAME); endel(TAG_LOCATION); }
+    for (int i = 0; i < 2; i++) if (i < nb) { ws(wsall); bstart[i] = n_; el(TAG_BRANCHPOINT, 1, 0, 43 + i, 0, 0, 0); }
+    ws(wsall); istart = n_; el(TAG_INIT, 1, 41, 0, 0, 0, 0);
+    for (int i = 0; i < 2; i++) if (i < nt) { ws(wsall); tstart[i] = n_; el(TAG_TRANSITION, 0, 0, 0, 0, 0, 0); el(TAG_SOURCE, 1, 41, 0, 0, 0, 0); el(TAG_TARGET, 1, 41, 0, 0, 0, 0); endel(TAG_TRANSITION); }
+    ws(wsall); endel(TAG_TEMPLATE);
+    ws(wsall);
+    int after = n_;
+    el(TAG_SYSTEM, 0, 0, 0, 0, 0, 0); endel(TAG_SYSTEM); endel(TAG_NTA);
+    wx_start_template(n_);
+    int r = wx_call(4);
+    A04(r == 1 && verif_exc == 0, "c04.reader.templ:a-well-formed-template-is-read-without-an-exception");
+    int e = 0;
+    if (hp) { A04(verif_ev_op[e] == EV_PARSE && verif_ev_a[e] == pt && verif_ev_b[e] == S_PARAMETERS, "c04.reader.templ:the-parameter-text-is-parsed-as-parameters,-before-the-template-is-opened"); e++; }
+    A04(verif_ev_op[e] == EV_PROC_BEGIN && verif_ev_a[e] == (hn ? nm : 0), "c04.reader.templ:the-template-is-opened-under-its-name"); e++;
+    if (hd) { A04(verif_ev_op[e] == EV_PARSE && verif_ev_a[e] == dt && verif_ev_b[e] == S_DECLARATION, "c04.reader.templ:the-local-declarations-are-parsed-inside-the-template"); e++; }
+    for (int i = 0; i < 2; i++) if (i < nl) { A04(verif_ev_op[e] == EV_C_LOCATION && verif_ev_a[e] == lstart[i], "c04.reader.templ:every-location-element-is-read,-once,-in-document-order"); e++; }
+    for (int i = 0; i < 2; i++) if (i < nb) { A04(verif_ev_op[e] == EV_C_BRANCHPOINT && verif_ev_a[e] == bstart[i], "c04.reader.templ:every-branchpoint-element-is-read,-once,-in-document-order,-after-the-locations"); e++; }
+    A04(verif_ev_op[e] == EV_C_INIT && verif_ev_a[e] == istart, "c04.reader.templ:the-init-element-is-read-after-all-locations-and-branchpoints"); e++;
+    for (int i = 0; i < 2; i++) if (i < nt) { A04(verif_ev_op[e] == EV_C_TRANSITION && verif_ev_a[e] == tstart[i], "c04.reader.templ:every-transition-element-is-read,-once,-in-document-order"); e++; }
+    A04(verif_ev_op[e] == EV_PROC_END && verif_nev == e + 1, "c04.reader.templ:the-template-is-closed-after-its-last-transition-and-nothing-else-is-handed-over");
+    A04(wx_cursor() == after, "c04.reader.templ:exactly-this-template-element-is-consumed");
+    A06(verif_ev_d[hp ? 1 : 0] == 2000 + PATH_ID(PATH_ID(1, TAG_NTA, 1), TAG_TEMPLATE, 1) && verif_ev_d[e] == 2000 + PATH_ID(PATH_ID(1, TAG_NTA, 1), TAG_TEMPLATE, 1),
+        "c06.reader.templ:diagnostics-of-opening-and-closing-the-template-are-attributed-to-the-template-element");
+}
+#define PCASE(HN, HP, HD, NL, NB, NT, WS) void h_c04_reader_templ_##HN##HP##HD##NL##NB##NT##WS(void) { templ_case(HN, HP, HD, NL, NB, NT, WS); REACH; }
+PCASE(1, 1, 1, 2, 1, 2, 0) PCASE(0, 0, 0, 0, 0, 1, 1) PCASE(1, 0, 1, 1, 0, 0, 1) PCASE(0, 1, 0, 2, 2, 1, 0) PCASE(1, 1, 1, 0, 0, 0, 0)
+
 void h_c04_reader_init(void)
 {
     int ra = 41, na, other, on;
